@@ -137,8 +137,16 @@ def pySet {α ι : Type} [PyPos ι] (l : List α) (i : ι) (v : α) : List α :=
 /-- `np.where(rows == i)[0]` -/
 def npWhereEq (rows : List Nat) (i : Nat) : List Nat := whereEq i rows 0
 
-/-- `bsr_matrix((blocks, columns, indptr), shape=…)` -/
+/-- `bsr_matrix((blocks, columns, indptr))` -/
 def mkBsr (blocks : List Mat) (columns indptr : List Nat) : BSR := ⟨blocks, columns, indptr⟩
+
+/-- `…(…, dtype=d)`: the array as allocated / stored with dtype `d`.  Exact numbers do not depend on `d`, so this is the
+identity; but the word is opaque to the comparison of the translation with the `…Coded` definitions
+(`GenProps/C12Src.lean`), so a hard-coded or dropped `dtype=` no longer proves equal to the one that hands `dtype` on -/
+def asDtype {α : Type} (d : DType) (x : α) : α := x
+
+/-- `…(…, shape=(n, m))`: likewise for the declared shape of the sparse matrix -/
+def withShape {α : Type} (n m : Nat) (x : α) : α := x
 
 /-! vocabulary of `_covariance_matrix_inverse` -/
 
@@ -440,7 +448,7 @@ def denseCoded (cinv : Arr → Option Nat → Except PyErr Mat) (X : Mat) (g : G
     (dtype : DType) (nc : Option Nat) (bias : Bool) : Except PyErr Mat :=
   if !modeKnown mode then .error .valueError
   else
-    let r := forLoop (none, zerosRC n n) (List.range g.nEdges) (fun acc e => denseBody cinv X g k mode nc bias acc e)
+    let r := forLoop (none, asDtype dtype (zerosRC n n)) (List.range g.nEdges) (fun acc e => denseBody cinv X g k mode nc bias acc e)
     match r.1 with
     | some v => v
     | none => .ok r.2
@@ -463,7 +471,7 @@ def denseCodedRC (cinv : Arr → Option Nat → Except PyErr Mat) (X : Mat) (g :
     (dtype : DType) (nc : Option Nat) (bias : Bool) : Except PyErr (Mat × List Arr) :=
   if !modeKnown mode then .error .valueError
   else
-    let r := forLoop (none, zerosRC n n, zeros3 (g.nEdges, covDimS mode k, covDimS mode k)) (List.range g.nEdges)
+    let r := forLoop (none, asDtype dtype (zerosRC n n), asDtype dtype (zeros3 (g.nEdges, covDimS mode k, covDimS mode k))) (List.range g.nEdges)
       (fun acc e => denseBodyRC cinv X g k mode nc bias acc e)
     match r.1 with
     | some v => v
@@ -498,20 +506,21 @@ def indptrBody (rows : List Nat) (ip : List Nat) (i : Nat) : List Nat :=
   else pySet (pySet ip i (pyIdx (npWhereEq rows i) (0 : Nat) : Nat)) (i + 1) ((pyIdx (npWhereEq rows i) (-(1) : Int) : Nat) + 1)
 
 /-- `rows.argsort()`, the three reorderings, the `indptr` loop, `bsr_matrix((all_blocks, columns, indptr))` -/
-def finishBsr (argsort : List Nat → List Nat) (V : Nat) (blocks : List Mat) (columns rows : List Nat) : BSR :=
-  mkBsr (pyIdx blocks (argsort rows)) (pyIdx columns (argsort rows))
-    (forLoop (List.replicate (V + 1) (0 : Nat)) (List.range V) (fun ip i => indptrBody (pyIdx rows (argsort rows)) ip i))
+def finishBsr (argsort : List Nat → List Nat) (V n : Nat) (dtype : DType) (blocks : List Mat) (columns rows : List Nat) :
+    BSR :=
+  withShape n n (asDtype dtype (mkBsr (pyIdx blocks (argsort rows)) (pyIdx columns (argsort rows))
+    (forLoop (List.replicate (V + 1) (0 : Nat)) (List.range V) (fun ip i => indptrBody (pyIdx rows (argsort rows)) ip i))))
 
 /-- `_create_sparse_precision(…, return_covariances=False)` -/
 def sparseCoded (cinv : Arr → Option Nat → Except PyErr Mat) (argsort : List Nat → List Nat) (X : Mat) (g : GraphS)
     (n k : Nat) (mode : ModeS) (dtype : DType) (nc : Option Nat) (bias : Bool) : Except PyErr BSR :=
   if !modeKnown mode then .error .valueError
   else
-    let r := forLoop (none, zerosN (g.nEdges * 4) k k, List.replicate (g.nEdges * 4) (0 : Nat),
+    let r := forLoop (none, asDtype dtype (zerosN (g.nEdges * 4) k k), List.replicate (g.nEdges * 4) (0 : Nat),
       List.replicate (g.nEdges * 4) (0 : Nat), (-(1) : Int)) (List.range g.nEdges) (fun acc e => sparseBody cinv X g k mode nc bias acc e)
     match r.1 with
     | some v => v
-    | none => .ok (finishBsr argsort g.nVertices r.2.1 r.2.2.1 r.2.2.2.1)
+    | none => .ok (finishBsr argsort g.nVertices n dtype r.2.1 r.2.2.1 r.2.2.2.1)
 
 def sparseBodyRC (cinv : Arr → Option Nat → Except PyErr Mat) (X : Mat) (g : GraphS) (k : Nat) (mode : ModeS)
     (nc : Option Nat) (bias : Bool)
@@ -531,12 +540,12 @@ def sparseCodedRC (cinv : Arr → Option Nat → Except PyErr Mat) (argsort : Li
     (n k : Nat) (mode : ModeS) (dtype : DType) (nc : Option Nat) (bias : Bool) : Except PyErr (BSR × List Arr) :=
   if !modeKnown mode then .error .valueError
   else
-    let r := forLoop (none, zerosN (g.nEdges * 4) k k, zeros3 (g.nEdges, covDimS mode k, covDimS mode k),
+    let r := forLoop (none, asDtype dtype (zerosN (g.nEdges * 4) k k), asDtype dtype (zeros3 (g.nEdges, covDimS mode k, covDimS mode k)),
       List.replicate (g.nEdges * 4) (0 : Nat), List.replicate (g.nEdges * 4) (0 : Nat), (-(1) : Int)) (List.range g.nEdges)
       (fun acc e => sparseBodyRC cinv X g k mode nc bias acc e)
     match r.1 with
     | some v => v
-    | none => .ok (finishBsr argsort g.nVertices r.2.1 r.2.2.2.1 r.2.2.2.2.1, r.2.2.1)
+    | none => .ok (finishBsr argsort g.nVertices n dtype r.2.1 r.2.2.2.1 r.2.2.2.2.1, r.2.2.1)
 
 /-! the edgeless constructors -/
 
@@ -550,7 +559,7 @@ def denseDiagBody (cinv : Arr → Option Nat → Except PyErr Mat) (X : Mat) (k 
 /-- `_create_dense_diagonal_precision(…, return_covariances=False)` -/
 def denseDiagCoded (cinv : Arr → Option Nat → Except PyErr Mat) (X : Mat) (g : GraphS) (n k : Nat) (dtype : DType)
     (nc : Option Nat) (bias : Bool) : Except PyErr Mat :=
-  let r := forLoop (none, zerosRC n n) (List.range g.nVertices) (fun acc v => denseDiagBody cinv X k nc bias acc v)
+  let r := forLoop (none, asDtype dtype (zerosRC n n)) (List.range g.nVertices) (fun acc v => denseDiagBody cinv X k nc bias acc v)
   match r.1 with
   | some v => v
   | none => .ok r.2
@@ -568,7 +577,7 @@ def denseDiagBodyRC (cinv : Arr → Option Nat → Except PyErr Mat) (X : Mat) (
 /-- `_create_dense_diagonal_precision(…, return_covariances=True)` -/
 def denseDiagCodedRC (cinv : Arr → Option Nat → Except PyErr Mat) (X : Mat) (g : GraphS) (n k : Nat) (dtype : DType)
     (nc : Option Nat) (bias : Bool) : Except PyErr (Mat × List Arr) :=
-  let r := forLoop (none, zerosRC n n, zerosN g.nVertices k k) (List.range g.nVertices) (fun acc v => denseDiagBodyRC cinv X k nc bias acc v)
+  let r := forLoop (none, asDtype dtype (zerosRC n n), asDtype dtype (zerosN g.nVertices k k)) (List.range g.nVertices) (fun acc v => denseDiagBodyRC cinv X k nc bias acc v)
   match r.1 with
   | some v => v
   | none => .ok (r.2.1, r.2.2)
@@ -584,11 +593,11 @@ def sparseDiagBody (cinv : Arr → Option Nat → Except PyErr Mat) (X : Mat) (k
 /-- `_create_sparse_diagonal_precision(…, return_covariances=False)` -/
 def sparseDiagCoded (cinv : Arr → Option Nat → Except PyErr Mat) (argsort : List Nat → List Nat) (X : Mat) (g : GraphS)
     (n k : Nat) (dtype : DType) (nc : Option Nat) (bias : Bool) : Except PyErr BSR :=
-  let r := forLoop (none, zerosN g.nVertices k k, List.replicate g.nVertices (0 : Nat), List.replicate g.nVertices (0 : Nat))
+  let r := forLoop (none, asDtype dtype (zerosN g.nVertices k k), List.replicate g.nVertices (0 : Nat), List.replicate g.nVertices (0 : Nat))
     (List.range g.nVertices) (fun acc v => sparseDiagBody cinv X k nc bias acc v)
   match r.1 with
   | some v => v
-  | none => .ok (finishBsr argsort g.nVertices r.2.1 r.2.2.1 r.2.2.2)
+  | none => .ok (finishBsr argsort g.nVertices n dtype r.2.1 r.2.2.1 r.2.2.2)
 
 def sparseDiagBodyRC (cinv : Arr → Option Nat → Except PyErr Mat) (X : Mat) (k : Nat) (nc : Option Nat) (bias : Bool)
     (acc : Option (Except PyErr (BSR × List Arr)) × List Mat × List Arr × List Nat × List Nat) (v : Nat) :
@@ -603,11 +612,11 @@ def sparseDiagBodyRC (cinv : Arr → Option Nat → Except PyErr Mat) (X : Mat) 
 /-- `_create_sparse_diagonal_precision(…, return_covariances=True)` -/
 def sparseDiagCodedRC (cinv : Arr → Option Nat → Except PyErr Mat) (argsort : List Nat → List Nat) (X : Mat) (g : GraphS)
     (n k : Nat) (dtype : DType) (nc : Option Nat) (bias : Bool) : Except PyErr (BSR × List Arr) :=
-  let r := forLoop (none, zerosN g.nVertices k k, zerosN g.nVertices k k, List.replicate g.nVertices (0 : Nat),
+  let r := forLoop (none, asDtype dtype (zerosN g.nVertices k k), asDtype dtype (zerosN g.nVertices k k), List.replicate g.nVertices (0 : Nat),
     List.replicate g.nVertices (0 : Nat)) (List.range g.nVertices) (fun acc v => sparseDiagBodyRC cinv X k nc bias acc v)
   match r.1 with
   | some v => v
-  | none => .ok (finishBsr argsort g.nVertices r.2.1 r.2.2.2.1 r.2.2.2.2, r.2.2.1)
+  | none => .ok (finishBsr argsort g.nVertices n dtype r.2.1 r.2.2.2.1 r.2.2.2.2, r.2.2.1)
 
 /-! the constructors of the two classes -/
 
